@@ -25,6 +25,7 @@ type World struct {
 	Eng   *broker.Engine
 	Peers []*Peer
 	nconn int
+	Real  bool // connections dialled from now on reach the broker as a transport.BaseConn over an EndCarrier
 }
 
 // NewWorld builds a broker; cfg may adjust the memory backend before use.
@@ -45,6 +46,7 @@ type Peer struct {
 	Name   string // connection name (unique per connection)
 	End    *End   // peer side
 	BEnd   *End   // broker side (fault switches live here)
+	Conn   transport.Conn // what the broker was handed: BEnd itself, or a transport.BaseConn over it (World.Real)
 	Inbox  []packet.Generic
 	nextID packet.ID
 }
@@ -54,11 +56,15 @@ func (w *World) Dial(name string) *Peer {
 	w.nconn++
 	cn := fmt.Sprintf("%s#%d", name, w.nconn)
 	p := NewPipe("peer:"+cn, cn, 256)
-	peer := &Peer{W: w, Name: cn, End: p.A, BEnd: p.B}
+	peer := &Peer{W: w, Name: cn, End: p.A, BEnd: p.B, Conn: p.B}
+	if w.Real {
+		// the broker talks through the real transport.BaseConn over a byte-stream view of the same pipe
+		peer.Conn = &RealConn{BaseConn: transport.NewBaseConn(&EndCarrier{E: p.B}), e: p.B}
+	}
 	w.Peers = append(w.Peers, peer)
 	old := vrt.Cur().Tag
 	vrt.SetTag(cn)
-	w.Eng.Handle(p.B)
+	w.Eng.Handle(peer.Conn)
 	vrt.SetTag(old)
 	return peer
 }
